@@ -1,9 +1,81 @@
+import SwayVerif.Model.FmtSpec
 import SwayVerif.Driver.Util
-/-! Driver for C19 (stub — replace `answer`; keep `run`). -/
+/-!
+Driver for C19. Case: `fmt <cfg> <id> <src stream>`; implementation result:
+`ok <out stream> parses=<0|1>` | `nolex - parses=0` | `rej-<kind>` | `panic`.
+A stream is `<k><cp>,<cp>….<k>…` (k = p i l d o c m), `-` = empty.
+Answer: `<verdict> agree=1 prop=<fmtCheck> status=… [fp=<fingerprint>]`. There is no model of the formatter, so
+`agree` only says that the line was understood; `prop` is the proved validator `fmtCheck` on the real output.
+-/
 namespace SwayVerif.Driver.C19
-open SwayVerif.Driver
+open SwayVerif.FmtSpec SwayVerif.Driver
 
-def answer (_line : String) : String := "unimplemented agree=0 prop=0"
+def kindOf? (c : Char) : Option Kind :=
+  match c with
+  | 'p' => some .punct | 'i' => some .ident | 'l' => some .lit | 'd' => some .doc
+  | 'o' => some .open | 'c' => some .close | 'm' => some .comment | _ => none
+
+structure PS where
+  acc : List Tok := []          -- reversed
+  kind : Option Kind := none
+  text : List Char := []        -- reversed
+  cur : Nat := 0
+  hasCur : Bool := false
+  bad : Bool := false
+
+def pushCp (s : PS) : PS :=
+  if s.hasCur then
+    if h : s.cur.isValidChar then { s with text := Char.ofNatAux s.cur h :: s.text, cur := 0, hasCur := false }
+    else { s with bad := true }
+  else s
+
+def endTok (s : PS) : PS :=
+  let s := pushCp s
+  match s.kind with
+  | some k => { s with acc := { kind := k, text := s.text.reverse } :: s.acc, kind := none, text := [] }
+  | none => { s with bad := true }
+
+def feed (s : PS) (c : Char) : PS :=
+  if s.bad then s else
+  match s.kind with
+  | none => (match kindOf? c with | some k => { s with kind := some k } | none => { s with bad := true })
+  | some _ =>
+    if c = '.' then endTok s
+    else if c = ',' then pushCp s
+    else match hexDigit? c with
+      | some d => { s with cur := s.cur * 16 + d, hasCur := true }
+      | none => { s with bad := true }
+
+def parseStream? (str : String) : Option (List Tok) :=
+  if str = "-" then some [] else
+  let s := endTok (str.foldl feed {})
+  if s.bad then none else some s.acc.reverse
+
+def answer (line : String) : String :=
+  let (c, i) := splitCase line
+  match c with
+  | ["fmt", _cfg, _id, srcS] =>
+    (match parseStream? srcS with
+     | none => "bad-src agree=0 prop=0"
+     | some src =>
+       match i with
+       | ["ok", outS, p] =>
+         (match parseStream? outS with
+          | none => "bad-out agree=0 prop=0"
+          | some out =>
+            let parses := p = "parses=1"
+            let ok := fmtCheck src out parses
+            let ncomments := (comments src).length
+            let size := if src.length < 100 then "s" else if src.length < 1000 then "m" else "l"
+            if ok then s!"accept agree=1 prop=1 status=ok size={size} comments={if ncomments = 0 then "0" else if ncomments < 10 then "few" else "many"}"
+            else s!"reject agree=1 prop=0 status=ok size={size} fp={fingerprint src out parses}")
+       | ["nolex", _, _] => s!"reject agree=1 prop=0 status=nolex fp=nolex"
+       -- a `FormatterError` puts the source outside the statement; a panic too, but `format` is specified to return
+       -- a `Result`, so a panic is reported as a disagreement with that contract (not as a C19 violation)
+       | [st] => if st.startsWith "rej-" then s!"skip agree=1 prop=1 status={st}"
+                 else if st = "panic" then "skip agree=0 prop=1 status=panic" else "bad-impl agree=0 prop=0"
+       | _ => "bad-impl agree=0 prop=0")
+  | _ => "bad-op agree=0 prop=0"
 
 def run : IO Unit := do
   lineLoop (← IO.getStdin) (← IO.getStdout) answer
